@@ -97,12 +97,15 @@ INJECT = {
 # properties that also get the MIR -> SMT instance (run/mirq.py): C01 (Q ratios == reference at full
 # width) and C10 (the Q ratios are that function of the quartiles and the mode on EVERY path, i.e.
 # whatever the permissive flags are, which the Kani lemma c10_direct_* shows on power-of-two q3 only)
-MIR_SMT_PROPS = ("C01", "C10", "C11", "C17")
+MIR_SMT_PROPS = ("C01", "C03", "C10", "C11", "C17")
 # C11: the length arithmetic of `update` (entry .. store of the new `len`) for ALL states and ALL
 # slice lengths incl. >= 4 GiB: one inductive step of len + tail_len == min(bytes fed, 2^32)
 # C17: the same instance as C11, for its panic-freedom half (no overflow, no slice-index or
 # copy_from_slice length panic in the prefix of update for any state and any slice length)
-MIR_SMT_KIND = {"C01": "qratio", "C10": "qratio", "C11": "len", "C17": "len"}
+# C03: the same instance again: "same reported length for every way of splitting" needs the step
+# len' + tail_len' == min(len + tail_len + n, 2^32) for pieces of ANY length, and the Kani chunk
+# lemmas have pieces <= 9 bytes (seed C03-3: `data.len() as u32` instead of the saturating conversion)
+MIR_SMT_KIND = {"C01": "qratio", "C03": "len", "C10": "qratio", "C11": "len", "C17": "len"}
 
 SIMD_OVERFLOW_RE = re.compile(r"attempt to compute `?simd_(add|sub|mul)`? which would overflow")
 
